@@ -1070,6 +1070,43 @@ fn header_chain_break(ast: &Ast, cbt: u8) -> bool {
     false
 }
 
+/// number of comment tokens that are the first token on their line
+fn own_line_comments(toks: &[Tk]) -> usize {
+    let mut n = 0;
+    for (i, t) in toks.iter().enumerate() {
+        if matches!(t.token, Token::CommentSingle | Token::CommentMulti) {
+            let prev = toks[..i].iter().rev().find(|p| p.token != Token::Whitespace);
+            if prev.is_none_or(|p| p.token == Token::NewLine) {
+                n += 1;
+            }
+        }
+    }
+    n
+}
+
+/// Some input line, re-indented to its block depth x indent_width, is wider than line_length: a
+/// necessary condition for the layout engine's `too_long` path when the formatter does not join lines.
+fn line_wider_after_reindent(src: &str, o: Opt) -> bool {
+    let mut stack: Vec<usize> = vec![];
+    for l in src.lines() {
+        let t = l.trim_start();
+        if t.trim_end().is_empty() {
+            continue;
+        }
+        let ind = l.len() - t.len();
+        while stack.last().is_some_and(|x| *x >= ind) {
+            stack.pop();
+        }
+        let depth = stack.len();
+        stack.push(ind);
+        let w: usize = t.trim_end().chars().map(|c| c.width().unwrap_or(0)).sum();
+        if l.chars().count() > o.ll as usize || depth * o.iw as usize + w > o.ll as usize {
+            return true;
+        }
+    }
+    false
+}
+
 fn is_block_construct(n: &Node) -> bool {
     match n {
         Node::For(_) | Node::While { .. } | Node::Until { .. } | Node::Loop { .. } | Node::Match { .. } | Node::Switch(_) | Node::Try(_) => true,
@@ -1222,8 +1259,19 @@ fn worker_handle(line: &str) -> String {
         if !fails.is_empty() && (header_chain_break(&ast, o.cbt) || nested_chain_break(&ast, o.cbt)) {
             oshapes.push("nested_chain_break");
         }
-        if !fails.is_empty() && src.lines().any(|l| l.chars().count() > o.ll as usize) {
+        if !fails.is_empty() && line_wider_after_reindent(&src, o) {
             oshapes.push("input_line_wider_than_line_length");
+        }
+        // F-C11-11: a trailing / inline comment of the input stands on a line of its own after the first
+        // pass (it no longer fitted behind its statement) — the second pass then moves it again
+        if fails.iter().any(|f| f["clause"].as_str() == Some("5:idempotence")) {
+            if let Ok(Ok(out1)) = kvh::catch(|| format(&src, o.to_fo())) {
+                if let Some(t1) = lex_all(&out1) {
+                    if own_line_comments(&t1) > own_line_comments(&toks) {
+                        oshapes.push("trailing_comment_moved_to_own_line");
+                    }
+                }
+            }
         }
         results.push(json!({"opt": o.text(), "fails": fails, "shapes": oshapes}));
     }
@@ -2194,6 +2242,7 @@ const FINDINGS: &[(&str, &str, &[&str])] = &[
     ("F-C11-6", "input_line_wider_than_line_length", &["2:", "3:", "5:"]),
     ("F-C11-7", "fmt_skip", &["2:", "3:", "5:"]),
     ("F-C11-8", "comment_after_assign", &["5:idempotence"]),
+    ("F-C11-11", "trailing_comment_moved_to_own_line", &["5:idempotence"]),
     ("F-C11-9", "block_expr_operand", &["2:", "3:", "5:"]),
     ("F-C11-9", "line_starts_with_minus", &["2:", "3:", "5:"]),
     ("F-C11-10", "comment_before_closer", &["2:", "3:", "4:", "5:"]),
@@ -2224,6 +2273,7 @@ struct Ctx {
     narrow_pairs: u64,
     narrow_failing_pairs: u64,
     mutant_soft: u64,
+    width_mode: bool,
     timeout: Duration,
 }
 
@@ -2243,7 +2293,7 @@ impl Ctx {
 
     fn attribute(&self, prog_shapes: &[String], opt_shapes: &[String], clause: &str) -> Option<&'static str> {
         for (id, shape, clauses) in FINDINGS {
-            if !self.open.iter().any(|x| x == id) {
+            if !self.open.iter().any(|x| x == id) || (self.width_mode && *id == WIDTH_CLASS) {
                 continue;
             }
             let has = prog_shapes.iter().any(|s| s == shape) || opt_shapes.iter().any(|s| s == shape);
@@ -2279,7 +2329,12 @@ impl Ctx {
                 if !hit {
                     return false;
                 }
-                if opt.ll < 255 && is_width_clause(clause) && self.open.iter().any(|x| x == WIDTH_CLASS) {
+                if self.width_mode {
+                    // ad-hoc mode: keep failures that exist at `opt` but not at line_length 255
+                    let un255 = self.unexplained(&shapes, &rs[1]);
+                    return !un255.iter().any(|f| is_width_clause(f["clause"].as_str().unwrap_or("")));
+                }
+                if opt.ll < 100 && is_width_clause(clause) && self.open.iter().any(|x| x == WIDTH_CLASS) {
                     // must also fail at 255 to be a non-width failure
                     let un255 = self.unexplained(&shapes, &rs[1]);
                     return un255.iter().any(|f| is_width_clause(f["clause"].as_str().unwrap_or("")));
@@ -2406,7 +2461,7 @@ impl Ctx {
             for f in &fails {
                 let clause = f["clause"].as_str().unwrap_or("").to_string();
                 let mut id: Option<String> = self.attribute(&shapes, &oshapes, &clause).map(String::from);
-                if id.is_none() && o.ll < 255 && is_width_clause(&clause) && self.open.iter().any(|x| x == WIDTH_CLASS) {
+                if id.is_none() && o.ll < 100 && is_width_clause(&clause) && self.open.iter().any(|x| x == WIDTH_CLASS) {
                     let c = Opt { ll: 255, ..o };
                     if let Some(r255) = by_opt.get(&c.text()) {
                         let un = self.unexplained(&shapes, r255);
@@ -2763,7 +2818,7 @@ fn main() {
 
     let mut rep = Report::new("C11", &args);
     rep.rule = format!(
-        "case = (program, formatter options) pair validated on clauses (1) no panic/hang/error (2) output parses to the same canonical Ast (3) same result+stdout where runnable and deterministic (4) same comment token sequence (5) format(format p) = format p (6) same multiset of Number/StringLiteral token texts. Programs: repository .koto files, ```koto blocks of all .md files, multi-line string literals of crates/*/tests/*.rs that parse, seeded generated programs in randomised layouts, token-neighbourhood mutants (delete/duplicate/swap one token) of corpus programs that still parse. Options: default + seeded sample of the grid line_length{{20,40,100,255}} x indent_width{{1,2,4,8}} x chain_break_threshold{{0,1,4}} x always_indent_arms (thorough: full grid on a subset). distinct = distinct (program text, options); non-trivial = program with at least 5 Ast nodes. Canonical Ast erases: {}. ENVELOPE: at line_length 20, 40 and 100 a failure of clauses (2),(3),(5) is only a violation when the same program also fails one of them at line_length 255 with the other options equal, or — at any line_length — when no input line is wider than line_length (width-forced breaking is broadly unsound in the unchanged tree: class finding F-C11-6); clauses (1),(4),(6) are enforced on the whole grid. On token mutants clauses (2),(3),(5) are measured and reported (mutant_not_enforced_*), not enforced: most parseable mutants are inputs the parser accepts by leniency (`f 1,, 2` is the tuple ((f 1), 2); `(null #- c -#)`), a long tail of distinct formatter defects; clauses (1),(4),(6) are enforced on them.",
+        "case = (program, formatter options) pair validated on clauses (1) no panic/hang/error (2) output parses to the same canonical Ast (3) same result+stdout where runnable and deterministic (4) same comment token sequence (5) format(format p) = format p (6) same multiset of Number/StringLiteral token texts. Programs: repository .koto files, ```koto blocks of all .md files, multi-line string literals of crates/*/tests/*.rs that parse, seeded generated programs in randomised layouts, token-neighbourhood mutants (delete/duplicate/swap one token) of corpus programs that still parse. Options: default + seeded sample of the grid line_length{{20,40,100,255}} x indent_width{{1,2,4,8}} x chain_break_threshold{{0,1,4}} x always_indent_arms (thorough: full grid on a subset). distinct = distinct (program text, options); non-trivial = program with at least 5 Ast nodes. Canonical Ast erases: {}. ENVELOPE: at line_length 20 and 40 a failure of clauses (2),(3),(5) is only a violation when the same program also fails one of them at line_length 255 with the other options equal; at line_length 100 and 255 it is a violation unless some input line, re-indented to block depth x indent_width, is wider than line_length (class finding F-C11-6) or a listed finding's shape applies (width-forced breaking is broadly unsound in the unchanged tree: class finding F-C11-6); clauses (1),(4),(6) are enforced on the whole grid. On token mutants clauses (2),(3),(5) are measured and reported (mutant_not_enforced_*), not enforced: most parseable mutants are inputs the parser accepts by leniency (`f 1,, 2` is the tuple ((f 1), 2); `(null #- c -#)`), a long tail of distinct formatter defects; clauses (1),(4),(6) are enforced on them.",
         ERASED
     );
     let open: Vec<String> = rep.known_open().iter().filter_map(|e| e.get("id").and_then(|x| x.as_str()).map(String::from)).collect();
@@ -2779,6 +2834,7 @@ fn main() {
         narrow_pairs: 0,
         narrow_failing_pairs: 0,
         mutant_soft: 0,
+        width_mode: args.has_flag("--width-mode"),
         timeout: Duration::from_secs(if args.thorough() { 120 } else { 60 }),
     };
     let mut rng = Rng::new(args.seed);
